@@ -276,7 +276,8 @@ vf_crash_sig(int status, const char * text, char * sig, size_t n)
 		sscanf(ls, "%127[^:]", file);
 		q = strrchr(file, '/');
 		sscanf(p + 15, "%63[^\n]", kind);
-		{ char * sp; for (sp = kind; *sp; sp++) if (*sp == ' ') *sp = '_'; kind[32] = 0; }
+		/* canonical: no spaces, no addresses (they differ between stack and heap, run to run) */
+		{ char * sp, * h; for (sp = kind; *sp; sp++) if (*sp == ' ') *sp = '_'; if ((h = strstr(kind, "0x")) != NULL) *h = 0; kind[40] = 0; }
 		snprintf(sig, n, "crash:ubsan:%s:%s", q ? q + 1 : file, kind);
 	} else if ((p = strstr(text, "Assertion")) != NULL) {
 		/* glibc: prog: file:line: func: Assertion `expr' failed. */
@@ -285,6 +286,8 @@ vf_crash_sig(int status, const char * text, char * sig, size_t n)
 		sscanf(ls, "%*[^:]: %127[^:]:%*d: %127[^:]", a, b);
 		(void)c;
 		q = strrchr(a, '/');
+		/* b is the pretty function ("int f(struct x *, size_t)"): keep the bare name */
+		{ char * par = strchr(b, '('), * st; if (par != NULL) { *par = 0; st = par; while (st > b && st[-1] != ' ' && st[-1] != '*') st--; memmove(b, st, strlen(st) + 1); } }
 		snprintf(sig, n, "crash:assert:%s:%s", q ? q + 1 : a, b);
 	} else if (WIFSIGNALED(status)) snprintf(sig, n, "crash:signal:%d", WTERMSIG(status));
 	else snprintf(sig, n, "crash:exit:%d", WEXITSTATUS(status));
